@@ -100,21 +100,33 @@ class ChunkPolicy:
         return "%s:%d" % (self.kind, self.k)
 
 
+class _Chunks(list):
+    nbytes = 0
+
+    def append(self, c):
+        self.nbytes += len(c)
+        list.append(self, c)
+
+
 class StreamRx:
     """One data stream the device reassembles chunk by chunk."""
 
     def __init__(self, name):
         self.name = name
-        self.chunks = []
+        self.chunks = _Chunks()
         self.requested = []
         self.total = None   # framing-determined total length, once known
+        self._joined = (0, b"")
 
     @property
     def data(self):
-        return b"".join(self.chunks)
+        # (joined once per growth: megabyte streams arrive in tens of thousands of chunks)
+        if self._joined[0] != len(self.chunks):
+            self._joined = (len(self.chunks), b"".join(self.chunks))
+        return self._joined[1]
 
     def received(self):
-        return sum(len(c) for c in self.chunks)
+        return self.chunks.nbytes
 
     def remaining(self):
         if self.total is None:
